@@ -15,6 +15,7 @@ def check(repo: Repo, rep, tier):
     compute_before_open(repo, rep)
     fmt_degrade(repo, rep)
     fmt_taint(repo, rep)
+    fmt_no_cache(repo, rep)
     persist_before_write(repo, rep)
     always_pop(repo, rep)
     err_dropped(repo, rep)
@@ -25,6 +26,9 @@ def check(repo: Repo, rep, tier):
     from .C03 import io_encoding
 
     io_encoding(repo, rep)
+    from .C13 import storage_no_cache
+
+    storage_no_cache(repo, rep)
 
 
 def _calls_of(f, cfg, cg, key):
@@ -99,11 +103,22 @@ def formatter_funcs(repo: Repo):
         return out
     for r in [x for x in body_nodes(f.node) if isinstance(x, ast.Return) and isinstance(x.value, ast.Call) and isinstance(x.value.func, ast.Name)]:
         c = r.value
-        if c.args and isinstance(c.args[0], ast.Name) and c.args[0].id == f.params[0]:
+        idx = [i for i, a in enumerate(c.args) if isinstance(a, ast.Name) and a.id == f.params[0]]
+        if idx:
             t = repo.resolve_name(f.module, c.func.id)
             if t and t[0] == "func" and t[1].module is f.module and t[1] not in out:
-                out.append(t[1])
+                g = t[1]
+                _text_param[g.key] = g.params[idx[0]] if idx[0] < len(g.params) else (g.params[0] if g.params else None)
+                out.append(g)
     return out
+
+
+_text_param = {}
+
+
+def text_param_of(f):
+    """the parameter of a formatter function that carries the unformatted text"""
+    return _text_param.get(f.key, f.params[0] if f.params else None)
 
 
 def fmt_degrade(repo: Repo, rep):
@@ -141,7 +156,7 @@ def _fmt_degrade_in(repo: Repo, rep, f, cg):
     if not f.params:
         rep.undecided("R-FMT-DEGRADE", f"{f.qualname} has no parameter")
         return 0, 0, 0
-    text = f.params[0]
+    text = text_param_of(f)
     rp = _raise_problem_nodes(f, cfg, cg)
 
     def returns_text(n):
@@ -196,6 +211,32 @@ def _fmt_degrade_in(repo: Repo, rep, f, cg):
         else:
             rep.violation("R-FMT-DEGRADE", f, c, "an exception of the formatter is not caught: a formatter crash aborts the rewrite", construct="format_str-unguarded")
     return len(handlers), len(branches), len(fs)
+
+
+def fmt_no_cache(repo: Repo, rep):
+    rep.rule(
+        "R-FMT-NO-CACHE",
+        "no function of _format.py is memoised (functools.lru_cache / cache) and none keeps results in a module-level container: what the formatter "
+        "returns depends on an external program and on files (pyproject.toml), not on the arguments alone.  A failure - which degrades to the unformatted "
+        "text - remembered from the report pass would be replayed for the final write: the file is written unformatted although the command works again",
+    )
+    m = repo.module("_format.py")
+    n = 0
+    bad = 0
+    for f in m.funcs.values():
+        n += 1
+        for d in f.decorators:
+            if d.split(".")[-1].split("(")[0] in ("lru_cache", "cache", "cached", "memoize"):
+                bad += 1
+                rep.violation("R-FMT-NO-CACHE", f, f.node, f"{f.qualname} is decorated with @{d}: its error path (the unformatted text) is cached like a result and handed out again when the file is finally written", construct=f"{f.qualname}:cache")
+        for x in body_nodes(f.node):
+            if isinstance(x, (ast.Assign, ast.AugAssign)):
+                for t in x.targets if isinstance(x, ast.Assign) else [x.target]:
+                    if isinstance(t, ast.Subscript) and isinstance(t.value, ast.Name) and t.value.id in m.globals_assigned and t.value.id not in f.params:
+                        bad += 1
+                        rep.violation("R-FMT-NO-CACHE", f, x, f"{f.qualname} stores formatter results in the module-level `{t.value.id}`", construct=f"{f.qualname}:{t.value.id}")
+    if not bad:
+        rep.ok("R-FMT-NO-CACHE", repo.func("_format.py::format_code"), None, f"{n} functions of _format.py, none memoised", site="src/inline_snapshot/_format.py: caches")
 
 
 def fmt_taint(repo: Repo, rep):
